@@ -788,6 +788,16 @@ class CallMixin:
         k = self.path.choose(len(outcomes), oc, label=f"call:{c.short}")
         kind, en = outcomes[k]
         self.called.add(c.target)
+        # effect_names() / effect_arg() inside the callee's contract speak about the effects of
+        # *this call* only, not about what the caller did before it
+        saved_base = getattr(self, "effects_base", 0)
+        self.effects_base = len(self.path.effects)
+        try:
+            return self._call_contract_outcome(c, kind, en, bound, values, old_heap, old_env)
+        finally:
+            self.effects_base = saved_base
+
+    def _call_contract_outcome(self, c, kind, en, bound, values, old_heap, old_env):
         for eff in c.effects:  # the call happened, whatever its outcome
             if isinstance(eff, (list, tuple)):
                 self.path.effects.append((eff[0],) + tuple(bound.get(a) for a in eff[1:]))
